@@ -561,7 +561,10 @@ __find_trno(const struct zif_s z[static 1U], int32_t t, int min, int max)
 		return -1;
 	} else if (UNLIKELY(t < zif_trans(z, min))) {
 		return -1;
-	} else if (UNLIKELY(t > zif_trans(z, max))) {
+	} else if (UNLIKELY(t >= zif_trans(z, max))) {
+		/* at or beyond MAX, which when MAX is the number of transitions
+		 * means at or beyond the last one, the bisection below
+		 * would never terminate for T on the last transition */
 		return max - 1;
 	}
 
